@@ -168,4 +168,21 @@ def splitParam (p : String) : Option (String × String) :=
   | (k, some v) => some (String.ofList (k.map fun c => if c == '-' then '_' else c), String.ofList v)
   | (_, none) => none
 
+/-! ### `Profile.load`: options section merged with the caller's explicit parameters -/
+
+/-- `dict(options, **params)`: the keys of the options section in their order, explicit values
+written over them, then the remaining explicit parameters (an explicit `None` overrides too and
+is then skipped by `update`) -/
+def mergeOptions (opts params : List (String × PyVal)) : List (String × PyVal) :=
+  opts.map (fun e => match params.lookup e.1 with | some v => (e.1, v) | none => e) ++
+  params.filter fun e => !(opts.any fun o => o.1 == e.1)
+
+/-- `d.setdefault(k, v)` -/
+def setDefault (d : List (String × PyVal)) (k : String) (v : PyVal) : List (String × PyVal) :=
+  if d.any (fun e => e.1 == k) then d else d ++ [(k, v)]
+
+/-- the keyword arguments `Profile.load` hands to `Profile(...)` -/
+def loadOptions (opts params : List (String × PyVal)) (neutralValue : PyVal) : List (String × PyVal) :=
+  setDefault (mergeOptions opts params) "neutral_value" neutralValue
+
 end Aldy
